@@ -32,6 +32,12 @@ class StubCapacity(Exception):
     """The stand-in was asked for more than it is built for: the run is discarded (never a verdict)."""
 
 
+# fault seam: the simulator may install a callable here; it is called with the problem at the start of every solve /
+# populate and may raise CplexSolverError (the solver died, licence / size limit) or mark the problem as ending
+# without a solution (`_forced_no_solution`), which is what a time limit hit before the first incumbent looks like
+FAULT_HOOK = None
+
+
 exceptions = type("exceptions", (), {"CplexError": CplexError, "CplexSolverError": CplexSolverError})
 infinity = 1e20
 
@@ -295,6 +301,12 @@ class Cplex:
     # solving -----------------------------------------------------------------------------------
     def solve(self):
         STATS["solves"] += 1
+        self._forced_no_solution = False
+        if FAULT_HOOK is not None:
+            FAULT_HOOK(self)
+        if self._forced_no_solution:
+            self._incumbent, self._pool = None, []
+            return
         sols = self._search(all_within=None)
         self._incumbent = sols[0] if sols else None
         self._pool = sols[:1]
@@ -302,6 +314,12 @@ class Cplex:
 
     def populate_solution_pool(self):
         STATS["populates"] += 1
+        self._forced_no_solution = False
+        if FAULT_HOOK is not None:
+            FAULT_HOOK(self)
+        if self._forced_no_solution:
+            self._incumbent, self._pool = None, []
+            return
         gap = self.parameters.mip.pool.absgap.get()
         limit = int(self.parameters.mip.limits.populate.get())
         first = self._search(all_within=None)
